@@ -110,7 +110,8 @@ class UnitGen:
                 opts = {'anchors': anchors if self.fn_modes[f.path] == 'verify' else [],
                         'sites': {str(k): v for k, v in f.sites.items()},
                         'lifts': {str(k): v for k, v in f.lifts.items()},
-                        'substs': [[a, b] for (a, b, _) in f.substs]}
+                        'substs': [[a, b] for (a, b, _) in f.substs],
+                        'renames': f.renames}
                 items.append({'kind': 'fn', 'name': f.name, 'opts': opts, '_mod': mp})
         return {'repo': self.repo, 'rules': self.rules_text, 'type_map': self.type_map, 'ghost_fields': ghost,
                 'templates': load_templates(),
